@@ -123,3 +123,12 @@ pub fn systime_zero() -> std::time::SystemTime { std::time::UNIX_EPOCH }
 /// manifest is "{}" - what is decided is the order and the fault handling of the store operations around them
 pub fn stub_bincode_serialize<T: ?Sized + serde::Serialize>(_v: &T) -> bincode::Result<Vec<u8>> { Ok(vec![1, 2, 3, 4]) }
 pub fn stub_json_pretty<T: ?Sized + serde::Serialize>(_v: &T) -> serde_json::Result<Vec<u8>> { Ok(vec![b'{', b'}']) }
+
+/// `ascii` kind (C16 parser-arm harnesses): String::from_utf8_lossy restricted to ASCII input, where it is the
+/// identity (Cow::Borrowed of the same bytes). Non-ASCII argument bytes are assumed away here (stated in the
+/// evidence); Utf8Chunks::next on symbolic bytes is what kept a one-argument frame from finishing in 15 min.
+pub fn ascii_lossy(v: &[u8]) -> std::borrow::Cow<'_, str> {
+    let mut i = 0;
+    while i < v.len() { kani::assume(v[i] < 0x80); i += 1; }
+    std::borrow::Cow::Borrowed(unsafe { std::str::from_utf8_unchecked(v) })
+}
